@@ -242,7 +242,8 @@ func c07NumFGen(r *Rand, tier string) []string {
 
 // c07NumFCorpus: past observations worth keeping (always run first).
 var c07NumFCorpus = []string{
-	// all samples +Inf: Min() stays at the sentinel MaxFloat64 (val < min is false), Max() is +Inf; mean goes NaN at the 2nd sample
+	// all samples +Inf: Min() is +Inf (it stayed at the old sentinel MaxFloat64 before fix bda1842); mean goes NaN at the 2nd sample
+	"agg numfv 1 0 fff0000000000000 .",
 	"agg numfv 1 0 7ff0000000000000;7ff0000000000000 3fe0000000000000",
 	// NaN samples never reach min/max, sort first (last when reversed), and each starts a new run in Mode
 	"agg numfv 1 0 7ff8000000000001;3ff0000000000000;7ff8000000000001;3ff0000000000000 0000000000000000,3fe0000000000000",
